@@ -33,7 +33,7 @@ def _demos(prop):
     sd = os.path.join(ROOT, "seeded")
     out = []
     for d in sorted(os.listdir(sd)) if os.path.isdir(sd) else []:
-        if d.split("-")[0].rstrip("bcdefghij") != prop:
+        if d.split("-")[0].rstrip("abcdefghijklmnopqrstuvwxyz") != prop:
             continue
         for f in sorted(os.listdir(os.path.join(sd, d))):
             if f.startswith("demo") and f.endswith(".py"):
